@@ -57,6 +57,8 @@ class SessionModel(object):
             return ('value', None)
         if k == 'locks':
             return ('locks',)
+        if k == 'usb_heal':
+            return ('value', None)
         if k == 'maxchunk':
             return ('any',)
         if k == 'ss_create':
@@ -78,6 +80,8 @@ class SessionModel(object):
             return ('exc', ('DevicePathInvalidError',), None)
         if not self.connected:
             return ('exc', ('AdbConnectionError',), None)
+        if op.get('expect_timeout'):
+            return ('exc', TIMEOUT_EXCS, None)
         if k in ('shell', 'exec_out'):
             data = b''.join(shell_payloads(d, op['cmd']))
             return ('value', data.decode('utf8', 'backslashreplace') if op.get('decode', True) else data)
@@ -200,7 +204,7 @@ def check_session(run, scn, actor=0, model=None, relaxed_from=None):
             continue
         if exp[0] == 'push':
             # did the device answer FAIL during this call? (ground truth, not a re-derivation of the chunking)
-            failed = [a for a in dev.push_attempts if rec['t0'] <= a['t0'] <= rec.get('t1', rec['t0']) and a.get('fail') is not None and (len(run.results) <= 1 or dev.all_streams[a['stream']].opener == actor)]
+            failed = [a for a in dev.push_attempts if rec.get('pk0', 0) <= dev.all_streams[a['stream']].open_pk < rec.get('pk1', 1 << 60) and a.get('fail') is not None and (len(run.results) <= 1 or dev.all_streams[a['stream']].opener == actor)]
             if failed:
                 exp = ('pushfail', bytes(failed[0]['fail']))
         if not rec['ok']:
@@ -270,7 +274,9 @@ def check_push(run, op, rec, where, actor=None):
     probs = []
     dev = run.device
     t0, t1 = rec['t0'], rec['t1']
-    mine = [p for p in dev.push_attempts if p['t0'] >= t0 and p['t0'] <= t1 and (actor is None or dev.all_streams[p['stream']].opener == actor)]
+    # attempts whose stream was opened during this call (host packet index window: virtual time may stand still between calls)
+    pk0, pk1 = rec.get('pk0', 0), rec.get('pk1', 1 << 60)
+    mine = [p for p in dev.push_attempts if pk0 <= dev.all_streams[p['stream']].open_pk < pk1 and (actor is None or dev.all_streams[p['stream']].opener == actor)]
     if op.get('src') == 'dir':
         want = {op['path'] + '/' + n: d for n, d in rec.get('src_files', {}).items()}
     else:
@@ -314,7 +320,7 @@ def check_push(run, op, rec, where, actor=None):
             if tot != len(data):
                 probs.append(P('callback-count', '%s: progress callback byte counts for %r sum to %d, source has %d' % (where, _sp(path), tot, len(data))))
             bad = [c for c in cb if c[0] == path and c[2] != len(data)]
-            if bad:
+            if bad and not op.get('src_pos'):
                 probs.append(P('callback-total', '%s: callback total_bytes %r, source has %d' % (where, bad[0][2], len(data))))
     return probs
 
